@@ -21,6 +21,8 @@ EXPLANATION = (
     "observable are initialised with dict / list literals. Batch workers read no module-level mutable state. The expected "
     "number of entropy references is zero, so positive witnesses (edit operators that plant one) run in every tier.")
 EXPLANATION += (' Batch workers: mutable module-level objects only (annotations, typing aliases, loggers and constants do not count). Premise: every run / repetition builds its own model (C15/C16 worker rules).')
+EXPLANATION += (" Building and stepping a model (everything reachable from Model.__init__, Model.execute, execute_systems) reads no module-level mutable state; no package function calls seed() / setstate() on a model's generator; the batch drivers step through Model.execute (C15 / C16 rule).")
+EXPLANATION += (" Premises: C20's per-class state (R-SHARED), C14's build() through C15 / C16.")
 ASSUMPTIONS = ["random.Random(seed) is deterministic for a given seed (library)", "user systems are outside the package",
                "dict/list iteration order does not depend on PYTHONHASHSEED (language fact)"]
 
@@ -278,4 +280,9 @@ def _premises(cx):
             'evaluates-the-built-product-list', 'pool-arm-is-an-ordered-map', 'steps-through-Model.execute')
     include_premises(cx, ['C15', 'C16'], 'a run is reproducible from its seed, in whatever process it is executed, only if every run and '
                      'repetition builds its own model and the results of a sweep are attributed to their runs independently of worker timing',
-                     only=lambda o: any(k in o.key for k in keep) or 'not a Pool created in this call' in o.message)
+                     only=lambda o: any(k in o.key for k in keep) or 'not a Pool created in this call' in o.message
+                     or (o.function or '').endswith('ParameterList.build'))
+    # class-level state that runs read is per class: a table shared by all agent classes lets the set-up of an unrelated model
+    # overwrite what a seeded run is using
+    include_premises(cx, ['C20'], 'class components and default tags set up for one model\'s classes are not changed by another model\'s set-up',
+                     only=lambda o: o.rule == 'R-SHARED')
